@@ -7,6 +7,7 @@ import itertools
 
 from ..poly import Sym, mk_func
 from ..interp import Interp, Str, Tup, Opaque
+from ..poly import Sym
 from ..model import AnalysisError
 from .. import purity
 from . import motion
@@ -19,6 +20,51 @@ ZERO3 = Tup((Sym.const(0), Sym.const(0), Sym.const(0)))
 def cannot_move(t):
     s, r, a = t
     return s == 0 or (r == 0 and a == 0) or (s < 0 and r < 0)
+
+
+def sqrt_args(sym, acc=None):
+    acc = [] if acc is None else acc
+    if isinstance(sym, Sym):
+        for at in sym.all_atoms():
+            if at[0] == 'f' and at[1] == 'SQRT' and not any(at[2][0] == x for x in acc):
+                acc.append(at[2][0])
+    return acc
+
+
+def check_root_guard(ck, fn, main_paths):
+    """D8: the roots of the duration quadratic are computed for every non-negative discriminant.
+    A path that skips the square root may do so only under discriminant < 0 (no real root); a
+    guard that also excludes discriminant = 0 loses the double root - the move that ends exactly
+    when the rate reaches zero."""
+    discs = []
+    for o, cut, mode in main_paths:
+        if isinstance(o.value, Tup) and o.value.items and isinstance(o.value.items[0], Sym):
+            sqrt_args(o.value.items[0], discs)
+    n = 0
+    for o, cut, mode in main_paths:
+        t_f = o.value.items[0] if isinstance(o.value, Tup) and o.value.items else None
+        if not isinstance(t_f, Sym) or sqrt_args(t_f):
+            continue
+        if any(nt[0] == 'mp-op' and nt[1].endswith('sqrt') for nt in o.state.notes):
+            continue      # the roots were computed (and discarded later on this path)
+        for c_, t_ in o.state.path[cut:]:
+            nc = motion.norm_path_cond(c_, t_)
+            if nc is None:
+                continue
+            ident = motion.identify(nc[0], discs, []) if discs else None
+            if ident is None:
+                continue
+            op = nc[1]
+            if ident[1] < 0:
+                op = {'<': '>', '<=': '>=', '>': '<', '>=': '<=', '==': '==', '!=': '!='}[op]
+            n += 1
+            ck.ob('C03-D8-root-guard', 'calculate_lm[%s]::roots-skipped-only-for-negative-'
+                  'discriminant' % mode, op == '<',
+                  'a computing path skips the root computation under "discriminant %s 0"; real '
+                  'roots exist for every discriminant >= 0, and discriminant = 0 (double root: the '
+                  'budget is reached exactly when the rate reaches zero) must not fall through to '
+                  'the duration-0 fallback' % op, fn.loc(), key='calculate_lm::root-guard')
+    ck.floor('paths that skip the root computation on a tested discriminant', n, 1)
 
 
 def run(ck, prog, tier):
@@ -48,6 +94,7 @@ def run(ck, prog, tier):
     base_q = [V('steps'), V('rate'), V('accel')]
     all_out = []
     n_const = [0]
+    main_paths = []
     for mode in ('numeric', 'clear'):
         args = [V('steps'), V('rate'), V('accel'),
                 Str.lit('clear') if mode == 'clear' else V('accum')]
@@ -100,6 +147,7 @@ def run(ck, prog, tier):
                 continue
             n_main += 1
             main_union |= allowed
+            main_paths.append((o, cut, mode))
             mirrored = all(t[0] < 0 for t in allowed)
             if not mirrored and any(t[0] < 0 for t in allowed):
                 raise AnalysisError('a computing path mixes steps<0 and steps>0')
@@ -195,6 +243,7 @@ def run(ck, prog, tier):
                       % (list(t),), fn.loc(), key='calculate_lm::early-extra')
         ck.floor('calculate_lm[%s] computing paths' % mode, n_main, 20)
     ck.floor('constant-rate computing paths', n_const[0], 4)
+    check_root_guard(ck, fn, main_paths)
     n_paths, n_ops = motion.check_precision(ck, 'C03-D5-precision', fn, all_out)
     ck.floor('calculate_lm mpmath operations', n_ops, 10)
     n_div = motion.check_float_division(ck, 'C03-D5-float-division', fn)
